@@ -3,6 +3,7 @@ import AidlVerif.Model.Validation
 import AidlVerif.Props.C07
 import AidlVerif.Props.C05
 import AidlVerif.Props.C10
+import AidlVerif.Props.C09
 
 /-
   Model driver: one JSON case per input line, one JSON verdict per output line.
@@ -118,8 +119,20 @@ def handleC10 (c : ValCtx) (v : Verdict) : Verdict :=
         s!"iface_oneway={Spec.interfaceOneway ast}/method_oneway={m.oneway}/void={decide (m.returnType.kind = .void)}"
   { v with nontrivial := !ms.isEmpty, dist := ms.foldl bump v.dist }
 
+def handleC09 (c : ValCtx) (v : Verdict) : Verdict :=
+  let v := v.addCorr "C09" (decide (c.model.map Spec.C09.proj = c.out.map Spec.C09.proj))
+  let v := v.addSpec "C09" (c.out.all Spec.C09.holdsFile)
+  let v := v.addAssume "C09" (c.stage1.all fun fr => match groupsOf c fr with
+    | some (g, ids) => decide (Props.C09.Fresh g ids)
+    | none => true)
+  let reports := c.out.flatMap fun fr => match fr.ast with
+    | none => []
+    | some b => Spec.C09.spec (Spec.methodsOf b)
+  let nm := (c.out.flatMap fun fr => match fr.ast with | none => [] | some b => Spec.methodsOf b).length
+  { v with nontrivial := nm ≥ 2, dist := bump (bump v.dist s!"methods={min nm 6}") s!"reports={min reports.length 4}" }
+
 def valHandlers : List (String × (ValCtx → Verdict → Verdict)) :=
-  [("C07", handleC07), ("C05", handleC05), ("C10", handleC10)]
+  [("C07", handleC07), ("C05", handleC05), ("C10", handleC10), ("C09", handleC09)]
 
 def opValidate (prop : String) (j : Json) : R Verdict := do
   let impl ← fld j "impl"
